@@ -208,6 +208,39 @@ def m_cycle(S, rnd):
     return "input-cycle"
 
 
+def m_default_cycle(S, rnd):
+    """Default values that refer back to the field they belong to: directly, through another input object, through a
+    list, through a value given for a field of a OneOf input object. Every default is a valid value of its type."""
+    def io(name, fields, one_of=False):
+        return {"kind": "INPUT_OBJECT", "name": name, "description": None, "specifiedBy": None, "fields": [], "interfaces": [], "members": [],
+                "values": [], "oneOf": one_of,
+                "inputFields": [{"name": n, "type": t, "description": None, "deprecation": None, "hasDefault": d is not None,
+                                 "default": d if d is not None else {"t": "null"}} for n, t, d in fields]}
+    O = lambda kv: {"t": "o", "kv": kv}     # noqa: E731
+    Nm = lambda n: ["N", n]                # noqa: E731
+    if any(t["name"].startswith("Cyc") for t in S["types"]):
+        return None
+    shape = rnd.choice(["self", "two", "list", "oneof", "oneof-list", "nested-value", "nonnull"])
+    if shape == "self":
+        new = [io("CycA", [("a", Nm("CycA"), O([])), ("n", Nm("Int"), None)])]
+    elif shape == "two":
+        new = [io("CycA", [("n", Nm("Int"), None), ("b", Nm("CycB"), O([]))]), io("CycB", [("a", Nm("CycA"), O([]))])]
+    elif shape == "list":
+        new = [io("CycA", [("l", ["L", Nm("CycA")], {"t": "l", "v": [O([])]})])]
+    elif shape == "oneof":
+        new = [io("CycA", [("o", Nm("CycO"), O([["a", O([])]]))]), io("CycO", [("a", Nm("CycA"), None), ("n", Nm("Int"), None)], True)]
+    elif shape == "oneof-list":
+        new = [io("CycA", [("o", Nm("CycO"), O([["l", {"t": "l", "v": [O([])]}]]))]), io("CycO", [("n", Nm("Int"), None), ("l", ["L", Nm("CycA")], None)], True)]
+    elif shape == "nested-value":
+        # the default gives a value for b, and inside that value a is left to its default again
+        new = [io("CycA", [("b", Nm("CycB"), O([["n", {"t": "i", "v": 1}]])), ("n", Nm("Int"), None)]),
+               io("CycB", [("n", Nm("Int"), None), ("a", Nm("CycA"), O([["n", {"t": "i", "v": 2}]]))])]
+    else:
+        new = [io("CycA", [("b", ["NN", Nm("CycB")], O([]))]), io("CycB", [("a", ["NN", ["L", ["NN", Nm("CycA")]]], {"t": "l", "v": [O([])]})])]
+    S["types"] += new
+    return "default-value-cycle"
+
+
 def m_oneof(S, rnd):
     ios = [t for t in objs(S, ["INPUT_OBJECT"]) if t["inputFields"]]
     if not ios:
@@ -309,7 +342,7 @@ def m_redefined_directive(S, rnd):
     return "redefined-specified-directive-invalid"
 
 
-MUTATORS = [m_redefined_directive, _iface("arg-type"), _iface("arg-type"), _iface("type"), _iface("arg-missing"), _iface("extra-required"), m_empty_type, m_input_in_output, m_output_in_input, m_bad_default, m_iface, m_union, m_reserved, m_cycle, m_oneof,
+MUTATORS = [m_redefined_directive, _iface("arg-type"), _iface("arg-type"), _iface("type"), _iface("arg-missing"), _iface("extra-required"), m_empty_type, m_input_in_output, m_output_in_input, m_bad_default, m_iface, m_union, m_reserved, m_cycle, m_default_cycle, m_oneof,
             m_deprecated_required, m_roots, m_implements]
 
 
